@@ -37,8 +37,8 @@ def mk_operand(kind, tag, dim, attached=None, anc=()):
     raise KeyError(kind)
 
 
-OTHERS = [("zero", None), ("num", None), ("empty", None), ("eq", "same"), ("eq", "diff"), ("ehq", "same"),
-          ("ehq", "diff"), ("str", None)]
+OTHERS = [("zero", None), ("num", None), ("empty", None), ("eq", "same"), ("eq", "diff"), ("eq", "dimless"), ("ehq", "same"),
+          ("ehq", "diff"), ("ehq", "dimless"), ("str", None)]
 
 BINARY = ["__add__", "__radd__", "__sub__", "__rsub__", "__mul__", "__rmul__", "__truediv__", "__rtruediv__",
           "__eq__", "__lt__", "__gt__", "np_compared_with", "compare_with_and_return_max"]
@@ -159,7 +159,7 @@ def cases_for(kind, method):
         def build():
             def one(world):
                 s = mk_operand(kind, "a", dim_self, attached=("objA", "attrA"))
-                odim = dim_self if rel != "diff" else D_B
+                odim = dim_self if rel == "same" else (D_B if rel == "diff" else DIMLESS)
                 o = mk_operand(okind, "b", odim, attached=None, anc=[("objB", "attrB")])
                 return s, o
             s1, o1 = one(0); s2, o2 = one(1)
@@ -201,6 +201,9 @@ def cases_for(kind, method):
         out.append(("unit of other dimension", mk_unary(lit("hour", D_B, 3600), lit("hour", D_B, 3600))))
     elif method == "__round__":
         out.append(("4 decimals", mk_unary(lambda: [PyNum(z3.IntVal(4))], lambda: [PyNum(z3.IntVal(4))])))
+    elif method == "set_label":
+        out.append(("non-empty label", mk_unary(lambda: ["a label"], lambda: ["a label"])))
+        out.append(("formatted label", mk_unary(lambda: [Label(True)], lambda: [Label(True)])))
     elif method == "check":
         out.append(("any", mk_unary(lambda: ["kg"], lambda: ["kg"])))
     elif method == "return_shifted_hourly_quantities":
@@ -215,17 +218,23 @@ def cases_for(kind, method):
     return out
 
 
+BASE = "efootprint.abstract_modeling_classes.explainable_object_base_class.ExplainableObject"
+INHERITED = {"eq": ["generate_explainable_object_with_logical_dependency", "set_label"],
+             "ehq": ["generate_explainable_object_with_logical_dependency", "set_label", "__copy__"], "empty": ["set_label"]}
+
+
 def verify_all(units, only=None, engine_kw=None):
     """returns (engine with obligations, list of function infos, undecided list)"""
     results = []
     for kind in ("empty", "eq", "ehq"):
         defined = class_methods(kind)
-        for method in sorted(defined - SKIP):
-            qual = f"{MOD}.{CLS[kind]}.{method}"
+        todo = [(m, f"{MOD}.{CLS[kind]}.{m}") for m in sorted(defined - SKIP)] + [(m, f"{BASE}.{m}") for m in INHERITED[kind] if m not in defined]
+        for method, qual in todo:
             if only and not any(o in qual for o in only): continue
             ex = extract(qual)
             eng = Engine(**(engine_kw or {}))
             info = ex.info()
+            if qual.startswith(BASE): info["function"] = f"{qual} [as inherited by {CLS[kind]}]"
             cases = cases_for(kind, method)
             if not cases:
                 eng.fn = qual
